@@ -54,7 +54,8 @@ EXTENDS Names
 (*  u32z              4 octets, omitted when all zero (UL KEY-LEASE)           *)
 (*  u32e              <<>> (absent) or 4 octets (EXPIRE)                       *)
 (*  u16opt            <<>> (absent) or <<v>> (TCP keepalive TIMEOUT)           *)
-(*  prefixaddr        full-length address, only the first ceil(f[sz]/8) octets *)
+(*  prefixaddr        full-length address (any bits): it is MASKED to the prefix *)
+(*                    f[sz] and only the first ceil(f[sz]/8) octets            *)
 (*                    travel (RFC 7871 s.6)                                    *)
 (*  u16list           duplicate-free sequence of u16 in ANY order, sent          *)
 (*                    in increasing order (SVCB mandatory)                     *)
@@ -279,8 +280,18 @@ EncBitmapFlat(v) ==
 (* APL (RFC 3123 s.4): ADDRESSFAMILY(16) PREFIX(8) N(1)+AFDLENGTH(7) AFDPART;  *)
 (* AFDPART = the address with trailing zero octets removed.                    *)
 AplBits(it) == IF it.fam = 1 THEN 32 ELSE 128
+\* addr with every bit beyond the first `bits' bits cleared
+MaskTo(addr, bits) ==
+  [i \in 1..Len(addr) |->
+     IF (i - 1) * 8 >= bits THEN 0
+     ELSE IF i * 8 <= bits THEN addr[i]
+     ELSE addr[i] - (addr[i] % Pow2(i * 8 - bits))]
+
+\* an item names the network addr/prefix: host bits beyond the prefix are not part of it and
+\* are not sent (the address is masked, then trailing zero octets are cut)
+AplAfd(it) == StripTrailingZeros(MaskTo(it.addr, it.prefix))
 EncAplItem(it) ==
-  LET afd == StripTrailingZeros(it.addr)
+  LET afd == AplAfd(it)
   IN U16(it.fam) \o << it.prefix, B2N(it.neg) * 128 + Len(afd) >> \o afd
 EncApl(v) == Concat([i \in 1..Len(v) |-> EncAplItem(v[i])])
 
@@ -296,7 +307,6 @@ WFAplItem(it) ==
   /\ it.fam \in {1, 2} /\ it.neg \in BOOLEAN
   /\ IsOct(it.addr, AplBits(it) \div 8)
   /\ it.prefix \in 0..AplBits(it)
-  /\ ZeroBeyond(it.addr, it.prefix)
 
 -----------------------------------------------------------------------------
 (* Field encoders.  EncKind: kinds whose octets depend on the value alone.     *)
@@ -309,7 +319,8 @@ RECURSIVE EncSub(_, _), EncKind(_, _)
 \* an option / SvcParam body: the fields of its sub-layout in order
 EncSub(es, f) ==
   Concat([i \in 1..Len(es) |->
-     IF es[i].k = "prefixaddr" THEN Take(f[es[i].n], (f[es[i].sz] + 7) \div 8)
+     IF es[i].k = "prefixaddr"      \* RFC 7871 s.6: truncated to SOURCE PREFIX-LENGTH bits, padded with 0 bits to the octet
+     THEN Take(MaskTo(f[es[i].n], f[es[i].sz]), (f[es[i].sz] + 7) \div 8)
      ELSE EncKind(es[i].k, f[es[i].n])])
 
 EncOption(o)  == LET d == EncSub(OptLayoutOf(o.code), o.f) IN U16(o.code) \o U16(Len(d)) \o d
@@ -381,11 +392,16 @@ Packable(m) == m.hdr.rcode \in 0..4095 /\ (m.hdr.rcode > 15 => HasOpt(m))
 (* s.4.1.2, RFC 9460 s.2.2 and s.8), and that is the order a decoder recovers.   *)
 NormSub(es, f) == [n \in DOMAIN f |->
                      IF \E i \in 1..Len(es) : es[i].n = n /\ es[i].k = "u16list" THEN SortedSeq(Range(f[n])) ELSE f[n]]
+NormOptSub(es, f) == [n \in DOMAIN f |->
+                        IF \E i \in 1..Len(es) : es[i].n = n /\ es[i].k = "prefixaddr"
+                        THEN MaskTo(f[n], f[es[CHOOSE i \in 1..Len(es) : es[i].n = n].sz]) ELSE f[n]]
+NormOpts(v)    == [i \in 1..Len(v) |-> [code |-> v[i].code, f |-> NormOptSub(OptLayoutOf(v[i].code), v[i].f)]]
+NormApl(v)     == [i \in 1..Len(v) |-> [v[i] EXCEPT !.addr = MaskTo(@, v[i].prefix)]]
 NormParams(v)  == LET s == SortParams(v) IN
                   [i \in 1..Len(s) |-> [key |-> s[i].key, f |-> NormSub(SvcbLayoutOf(s[i].key), s[i].f)]]
 
 \* what a decoder recovers: OPT's EXTENDED-RCODE octet is determined by the RCODE,
-\* SvcParams, mandatory keys and bitmap types come back in increasing order
+\* SvcParams, mandatory keys and bitmap types come back in increasing order, prefix addresses masked
 NormRR(rr) ==
   IF rr.nodata THEN rr
   ELSE LET es == FieldsOf(rr.type)
@@ -393,6 +409,8 @@ NormRR(rr) ==
        IN [rr EXCEPT !.f = [n \in DOMAIN rr.f |->
             CASE kindOf(n) = "svcb"   -> NormParams(rr.f[n])
               [] kindOf(n) = "bitmap" -> SortedSeq(Range(rr.f[n]))
+              [] kindOf(n) = "opts"   -> NormOpts(rr.f[n])          \* client-subnet address comes back masked
+              [] kindOf(n) = "apl"    -> NormApl(rr.f[n])           \* so does an APL address
               [] OTHER -> rr.f[n]]]
 
 (* AMBIG: a type bitmap listed out of order denotes the same set, so packing it  *)
@@ -434,7 +452,7 @@ LenKind(k, v) ==
     [] k = "names"   -> SumSeq([i \in 1..Len(v) |-> WireLen(v[i])])
     [] k = "bitmap"  -> LenBitmap(v)
     [] k = "bitmap0" -> Len(EncBitmapFlat(v))
-    [] k = "apl"     -> SumSeq([i \in 1..Len(v) |-> 4 + Len(StripTrailingZeros(v[i].addr))])
+    [] k = "apl"     -> SumSeq([i \in 1..Len(v) |-> 4 + Len(AplAfd(v[i]))])
     [] k = "opts"    -> SumSeq([i \in 1..Len(v) |-> 4 + LenSub(OptLayoutOf(v[i].code), v[i].f)])
     [] k = "svcb"    -> SumSeq([i \in 1..Len(v) |-> 4 + LenSub(SvcbLayoutOf(v[i].key), v[i].f)])
     [] k = "u32z"    -> IF v = <<0, 0, 0, 0>> THEN 0 ELSE 4
@@ -481,7 +499,6 @@ WFSub(es, f) ==
             /\ IsOct(f[es[i].n], IF f.Family = 1 THEN 4 ELSE 16)
             /\ f[es[i].sz] <= 8 * Len(f[es[i].n])
             /\ f.SourceScope <= 8 * Len(f[es[i].n])
-            /\ ZeroBeyond(f[es[i].n], f[es[i].sz])
        ELSE WFKind(es[i].k, f[es[i].n])
 WFKind(k, v) ==
   CASE k = "u8"      -> IsU8(v)
